@@ -1057,6 +1057,9 @@ def run(index: RepoIndex, rep) -> None:
     got_kinds = {}
     for mem in index.enum('SpaceType').members:
         def at(a_, mem=mem):
+            if isinstance(a_, ast.Call) and src(a_.func) == 'isinstance' and len(a_.args) == 2 \
+                    and src(a_.args[0]) == tp:
+                return src(a_.args[1]) == 'SpaceType'       # a member is a SpaceType
             if isinstance(a_, ast.Compare) and len(a_.ops) == 1 and src(a_.left) == tp and \
                     src(a_.comparators[0]).startswith('SpaceType.'):
                 same = src(a_.comparators[0]) == f'SpaceType.{mem}'
@@ -1078,6 +1081,17 @@ def run(index: RepoIndex, rep) -> None:
         if val is None:
             got_kinds[mem] = None
             continue
+        if isinstance(val, ast.Call) and isinstance(val.func, ast.Subscript) and \
+                isinstance(val.func.value, ast.Name) and src(val.func.slice) == tp:
+            # `_CHECKS[space_type](x)`: the entry of a module-level table over the members
+            from ..consteval import module_constant
+            tv = module_constant(sp.module, val.func.value.id)
+            if isinstance(tv, ast.Call) and len(tv.args) == 1:
+                tv = tv.args[0]             # MappingProxyType({...}) / dict({...})
+            if isinstance(tv, ast.Dict):
+                ent = {src(k__): v__ for k__, v__ in zip(tv.keys, tv.values) if k__ is not None}
+                if f'SpaceType.{mem}' in ent:
+                    val = ast.Call(ent[f'SpaceType.{mem}'], val.args, val.keywords)
         k_ = kind_leaf(val)
         if k_ is None and isinstance(val, ast.Call) and \
                 src(val.func) in ('np.issubdtype', 'numpy.issubdtype') and len(val.args) == 2 \
